@@ -24,6 +24,7 @@ import (
 	quic "github.com/refraction-networking/uquic"
 	"github.com/refraction-networking/uquic/internal/verifmc/explore"
 	"github.com/refraction-networking/uquic/internal/verifmc/sim"
+	"github.com/refraction-networking/uquic/internal/verifmc/wiremon"
 	tls "github.com/refraction-networking/utls"
 )
 
@@ -514,6 +515,7 @@ func c18RunOne(t *testing.T, c c18Case) c18Outcome {
 	if followUp {
 		x.msgs[n] = c18Msg{Gzip: m.Gzip, SLog: m.SLog, CLog: m.CLog, Kind: m.Kind}
 	}
+	var monFindings []wiremon.Finding
 	ok := sim.Run(t, "run", c.Seed, func(t *testing.T) {
 		for i := 0; i < total; i++ {
 			x.started = append(x.started, make(chan struct{}))
@@ -630,11 +632,16 @@ func c18RunOne(t *testing.T, c c18Case) c18Outcome {
 		w.ServerTr.Close()
 		<-serveDone
 		swg.Wait()
+		monFindings = wiremon.Analyze(w.Router.FullLog(), w.KeyLog.Lines(), wiremon.Params{}).Findings
 		out.datagrams = [2]int{w.Router.Count(sim.C2S), w.Router.Count(sim.S2C)}
 		out.transcript = w.Router.Transcript()
 	})
 	x.judge()
 	out.fails = x.fails
+	// passive wire monitor (QUIC level underneath the HTTP/3 exchange)
+	for _, f := range monFindings {
+		out.fails = append(out.fails, explore.Failf(f.Key, "%s", f.What))
+	}
 	if !ok && len(out.fails) == 0 {
 		out.fails = append(out.fails, explore.Failf("bubble-failed", "the bubble did not terminate cleanly for %v", c))
 	}
